@@ -324,14 +324,12 @@ FlagIrrelevant ==
     /\ \A x \in {"a", "b"} : ConsumedAsset(c, x) = ConsumedAsset(d, x) /\ ProducedAsset(c, x) = ProducedAsset(d, x)
 
 \* the flag is a coordinate of its own: every flagged case is the copy of an unflagged
-\* case of the same run (so each flagged verdict is paired with the unflagged one on the
-\* same amounts), only eras that have the flag are flagged, and with FlagEvery = 1 the
-\* case space of such an era is the full product with {FALSE, TRUE}
+\* case of the same run at the same coordinates (so each flagged verdict is paired with
+\* the unflagged one on the same amounts) and only eras that have the flag are flagged;
+\* FlagProduct below completes it to a bijection when FlagEvery = 1
 FlagTwin ==
-    LET here == WithFlag(c.era, c.bag, c.j)      \* the cases at c's coordinates (Cases is their union)
-    IN /\ c \in here
-       /\ c.p2 => HasFlag(c.era) /\ [c EXCEPT !.p2 = FALSE] \in here
-       /\ (FlagEvery = 1 /\ HasFlag(c.era)) => [c EXCEPT !.p2 = ~c.p2] \in here
+    c.p2 => /\ HasFlag(c.era)
+            /\ [c EXCEPT !.p2 = FALSE] \in Variants(c.era, c.bag, c.j)
 
 \* the generator respects the era's feature set and the grid bounds
 EraShape ==
@@ -353,6 +351,13 @@ ASSUME KeyRegKinds \cup KeyDeregKinds \cup NewPoolKinds \cup NeutralKinds \cup {
 ASSUME Range(LegacyKinds) \ {"genesis_deleg"} \subseteq Range(GovKinds)
 ASSUME Len(GovKinds) < 17 /\ Eras \subseteq Range(AllEras)
 ASSUME FlagEvery \in Nat \ {0}
+\* with FlagEvery = 1 the case space of an era that has the flag is the full product
+\* with {FALSE, TRUE} (as many flagged cases as unflagged ones; FlagTwin is the injection)
+FlagProduct ==
+    LET f == Cardinality({t \in Cases : t.p2})
+        u == Cardinality({t \in Cases : ~t.p2 /\ HasFlag(t.era)})
+    IN f <= u /\ (FlagEvery = 1 => f = u) /\ ((Eras \cap {e \in Range(AllEras) : HasFlag(e)}) # {} => f > 0)
+ASSUME FlagProduct
 ASSUME \A e \in Range(AllEras) : (FlagOnWire(e) => HasFlag(e)) /\ (HasFlag(e) => HasAssets(e))
 ASSUME \A x \in 0..50 : Rnd(<<Lane1(x, 1, 2), Lane2(x, 1, 2)>>, x, 4) \in 0..3
 
